@@ -44,6 +44,14 @@ theorem cyc_of_loop {k : Kernel} {hes : List Nat} (hc : Loop k hes) :
         rw [show i + hes.length - 1 = (i - 1) + hes.length by omega, Nat.add_mod_right, Nat.mod_eq_of_lt (by omega)]
       rw [e1, show i - 1 + 1 = i by omega, Nat.mod_eq_of_lt hi]
 
+/-- the converse fails: cyclically connected (the unordered body of `FaceCyc`) does not give a closed loop — the halfedges
+    `0→1, 2→0, 1→2` in this order.  So `Lookup.HfCyclic` cannot be derived from `Global.FaceCyc`, only from `FaceLoop`;
+    `LoopOK` asks of the unchecked calls a closed loop where `CycOK` asks a cyclically connected list -/
+example :
+    let k : Kernel := { nV := 3, edges := [(0, 1), (1, 2), (2, 0)], faces := [[0, 4, 2]] }
+    (∀ x ∈ k.faceAt 0, (∃ y ∈ k.faceAt 0, k.fromV y = k.toV x) ∧ (∃ z ∈ k.faceAt 0, k.toV z = k.fromV x)) ∧
+    loopB k (k.faceAt 0) = false ∧ Lookup.hfCyclicB k 0 = false := by decide
+
 /-- in a closed loop the list of targets is the list of sources rotated by one -/
 theorem map_toV_eq_rotate {k : Kernel} {hes : List Nat} (hc : Loop k hes) :
     hes.map k.toV = (hes.map k.fromV).rotateLeft 1 := by
